@@ -61,7 +61,12 @@ def run(repo, driver, tier, faildir, nproc, corpus_dir):
     # ---- wide-tree probes: totals beyond 2^31 (quick) and 2^32 (thorough) — a count type that is too narrow, or any
     # other fault that only shows on huge totals, breaks "perft(d) = sum over the legal moves m of perft(d-1) after m"
     # (theorem C04_recurrence for the model; the terms are each far below 2^31).  One call is compared with the split.
-    probes = [(0, "r2qk2r/1pp1qpp1/2npbn2/2b1p3/8/8/QQQQQQQQ/Q3K3 w kq - 0 1", 5)]
+    probes = [(0, "r2qk2r/1pp1qpp1/2npbn2/2b1p3/8/8/QQQQQQQQ/Q3K3 w kq - 0 1", 5),
+              # thin trees, great depth (both kings confined to their back ranks by rammed pawns): recursion depths beyond any
+              # fixed-size per-depth scratch storage
+              (0, "3k4/1p1p1p1p/1P1P1P1P/8/8/p1p1p1p1/P1P1P1P1/3K4 w - - 0 1", 18),
+              (0, "3k4/1p1p1p1p/1P1P1P1P/8/8/p1p1p1p1/P1P1P1P1/3K4 b - - 0 1", 21),
+              (0, "3k4/1p1p1p1p/1P1P1P1P/8/8/p1p1p1p1/P1P1P1P1/3K4 w - - 0 1", 27)]
     if tier != "quick":
         probes.append((0, "r3k2r/p1ppqpb1/bn2pnp1/3PN3/1p2P3/2N2Q1p/PPPBBPPP/R3K2R w KQkq - 0 1", 6))   # 8 031 647 685 > 2^32
     probe_nodes = 0
